@@ -2,9 +2,20 @@
 
 package file
 
+import "golang.org/x/crypto/ssh"
+
 // Re-exports for /verif/harness (overlay file; exists only in the `verif` build).
 
 func VerifIsBinaryASN1(b []byte) bool { return isBinaryASN1(b) }
 func VerifParseASN1Data(b []byte) Info { return parseASN1Data(b) }
 func VerifParseDERData(b []byte) Info  { return parseDERData(b) }
 func VerifRpmCountsPlausible(b []byte) bool { return rpmCountsPlausible(b) }
+func VerifParseOpenSSHPrivateKey(der []byte) (Info, error) { return parseOpenSSHPrivateKey(der) }
+func VerifSSHPublicKeyAttributes(blob []byte) ([]Attribute, bool) {
+	pk, err := ssh.ParsePublicKey(blob)
+	if err != nil {
+		return nil, false
+	}
+	return sshPublicKeyAttributes(pk, ""), true
+}
+func VerifJksLengthsPlausible(b []byte) bool { return jksLengthsPlausible(b) }
